@@ -110,10 +110,15 @@ def make_step(sid, length, order_name, orders, first_idx, second_idx=None, kind=
             d.add_file(cf)
         except VirtualFileValidationError as e:
             err = str(e)
+        except Exception as e:  # noqa: BLE001 - an internal error is not a clean refusal
+            err = "INTERNAL %s: %s" % (type(e).__name__, e)
         info = {"length": length, "order": order_name, "first_idx": first_idx, "error": err, "minimum": minimum}
         must_succeed = (free >= (minimum + 1 if exact else minimum)) and (slots_free >= 1)
         must_fail = (free < minimum) or (slots_free < 1)
-        if err is not None:
+        if err is not None and err.startswith("INTERNAL"):
+            ok = False
+            fault = err
+        elif err is not None:
             ok = not must_succeed
             fault = "refused although %s granules and %s slots are free" % (free, slots_free)
         elif must_fail:
